@@ -31,13 +31,25 @@ ASSUMPTIONS = [
 ]
 
 
-def make(K, table, axes=("X", "Y"), facedim="face", extra_fc=None):
+def respell(table, mode):
+    """the reverse flag spelled as bool (0), int (1) or numpy bool (2)"""
+    conv = {0: bool, 1: int, 2: np.bool_}[mode]
+    return {f: {A: tuple(None if l is None else (l[0], l[1], conv(l[2])) for l in pair) for A, pair in ax.items()} for f, ax in table.items()}
+
+
+def make(K, table, axes=("X", "Y"), facedim="face", extra_fc=None, ds_variant=None):
     from xgcm import Grid
 
     N = 2
     coords = {"x": ("x", np.arange(N)), "xl": ("xl", np.arange(N) - 0.5), "y": ("y", np.arange(N)), "yl": ("yl", np.arange(N) - 0.5),
               "face": ("face", np.arange(K))}
     ds = xr.Dataset(coords=coords)
+    if ds_variant == "scalar-coordinate":
+        ds = ds.isel(face=0)  # `face` survives as a scalar coordinate, not as a dimension
+    elif ds_variant == "data-variable":
+        ds = ds.isel(face=0, drop=True)
+        # a variable called `face` holding the face numbers (a mask on the horizontal grid), but no such dimension
+        ds["face"] = (("y", "x"), (np.arange(N * N) % max(K, 1)).reshape(N, N))
     gc = {"X": {"center": "x", "left": "xl"}, "Y": {"center": "y", "left": "yl"}}
     gc = {a: gc[a] for a in axes}
     fc = {facedim: table}
@@ -66,7 +78,7 @@ def predicate(K, table, axes):
 
 def check(rec, K, table, axes=("X", "Y"), sub="table", variant=None):
     case = dict(K=K, table=tab_json(table), axes=list(axes), variant=variant)
-    want = predicate(K, table, axes) and variant is None
+    want = predicate(K, table, axes) and variant in (None, "flags-int", "flags-npbool")
     nlinks = sum(1 for f in table for A in table[f] for l in table[f][A] if l)
     rec.case((K, tab_json(table), axes, variant), nlinks > 0, sample=case if nlinks >= 2 else None)
     rec.outcomes["expected-accept" if want else "expected-reject"] += 1
@@ -75,6 +87,10 @@ def check(rec, K, table, axes=("X", "Y"), sub="table", variant=None):
             make(K, table, axes, extra_fc={"face2": {0: {}}})
         elif variant == "absent-face-dim":
             make(K, table, axes, facedim="tile")
+        elif variant in ("scalar-coordinate", "data-variable"):
+            make(K, table, axes, ds_variant=variant)
+        elif variant in ("flags-int", "flags-npbool"):
+            make(K, respell(table, 1 if variant == "flags-int" else 2), axes)
         else:
             make(K, table, axes)
         ok = True
@@ -82,7 +98,7 @@ def check(rec, K, table, axes=("X", "Y"), sub="table", variant=None):
         ok = False
         err = e
     if ok and not want:
-        cls = "non-reciprocal-accepted" if variant is None else f"{variant}-accepted"
+        cls = "non-reciprocal-accepted" if variant in (None, "flags-int", "flags-npbool") else f"{variant}-accepted"
         rec.violation(sub, cls, case, "raise", "Grid returned")
     elif not ok and want:
         rec.violation(sub, "reciprocal-rejected:" + exc_sig(err), case, "Grid", f"{type(err).__name__}: {err}"[:200])
@@ -183,6 +199,19 @@ def run_shard(shard, tier, seed, rec):
         base = base_tables(tier)[0][1]
         check(rec, 2, base, variant="two-face-dims", sub="variants")
         check(rec, 2, base, variant="absent-face-dim", sub="variants")
+        open_table = {0: {"X": (None, None)}}
+        self_periodic = {0: {"X": ((0, "X", False), (0, "X", False))}}
+        for t_, K_ in ((base, 2), (open_table, 1), (self_periodic, 1), (open_table, 2)):
+            check(rec, K_, t_, variant="scalar-coordinate", sub="variants")
+            check(rec, K_, t_, variant="data-variable", sub="variants")
+            check(rec, K_, t_, variant="absent-face-dim", sub="variants")
+        # the reverse flag given as 0/1 or as numpy booleans: same verdicts as with True/False
+        for K, t in structured_tables():
+            check(rec, K, t, sub="flag-spelling", variant="flags-int")
+            check(rec, K, t, sub="flag-spelling", variant="flags-npbool")
+        for bi, (K, b) in enumerate(base_tables(tier)):
+            for ei, t in enumerate(edits(b, K)):
+                check(rec, K, t, sub="flag-spelling", variant=("flags-int", "flags-npbool")[(bi + ei) % 2])
         # unknown axis / unknown face in an otherwise reciprocal table
         check(rec, 2, {0: {"Z": (None, (1, "Z", False))}, 1: {"Z": ((0, "Z", False), None)}}, sub="variants")
         check(rec, 2, {0: {"X": (None, (5, "X", False))}, 5: {"X": ((0, "X", False), None)}}, sub="variants")
